@@ -9,11 +9,13 @@ import (
 	dto "github.com/prometheus/client_model/go"
 	"github.com/prometheus/prometheus/promql"
 
+	"github.com/thanos-community/promql-engine/api"
 	"github.com/thanos-community/promql-engine/engine"
 	"github.com/thanos-community/promql-engine/execution/parse"
 
 	"verifharness/run"
 	"verifharness/scn"
+	"verifharness/vstore"
 	"verifharness/vt"
 )
 
@@ -52,9 +54,19 @@ func isSentinel(err error) bool {
 // famFallback (C08): query texts over the whole vocabulary; fallback on and off; creation
 // outcome, path, counters and executed result against the reference engine.
 func famFallback(sc *scn.Scenario, em func(vt.Ev)) {
+	fallbackOn(sc, em, false)
+	// the same for the distributed engine over two remote engines that do not fall back themselves
+	// (they reject what they cannot evaluate when the remote query is created): one more scenario
+	d := *sc
+	d.ID = sc.ID + "-dist"
+	fallbackOn(&d, em, true)
+}
+
+func fallbackOn(sc *scn.Scenario, em func(vt.Ev), distributed bool) {
 	q := sc.Query()
 	runtime.GOMAXPROCS(sc.Procs())
-	em(vt.Ev{"ev": "sc", "id": sc.ID, "fam": sc.Fam, "q": q, "start": sc.Start, "end": sc.End, "step": sc.Step, "lb": sc.LB, "qlb": sc.QLB, "tickms": sc.TickMs, "data": []any{}})
+	em(vt.Ev{"ev": "sc", "id": sc.ID, "fam": sc.Fam, "q": q, "start": sc.Start, "end": sc.End, "step": sc.Step, "lb": sc.LB, "qlb": sc.QLB, "tickms": sc.TickMs, "data": []any{},
+		"cfg": map[string]any{"distributed": distributed}})
 	ref := promql.NewEngine(run.PromOpts(sc.Dur(sc.LB)))
 	rq, rerr := run.Create(ref, run.Store(sc), sc)
 	em(vt.Ev{"ev": "ref", "ok": rerr == nil})
@@ -65,7 +77,23 @@ func famFallback(sc *scn.Scenario, em func(vt.Ev)) {
 	}
 	for _, fb := range []bool{true, false} {
 		reg := prometheus.NewRegistry()
-		eng := engine.New(run.EngineOpts(sc, "default", !fb, reg))
+		var eng run.QueryEngine
+		if !distributed {
+			eng = engine.New(run.EngineOpts(sc, "default", !fb, reg))
+		} else {
+			all := run.SeriesOf(sc, sc.Data)
+			var remotes []api.RemoteEngine
+			for e := 0; e < 2; e++ {
+				var part []vstore.Series
+				for j, s := range all {
+					if j%2 == e {
+						part = append(part, s)
+					}
+				}
+				remotes = append(remotes, engine.NewLocalEngine(run.EngineOpts(sc, "default", true, nil), vstore.New(part)))
+			}
+			eng = engine.NewDistributedEngine(run.EngineOpts(sc, "default", !fb, reg), api.NewStaticEndpoints(remotes))
+		}
 		t0, f0 := counterValues(reg)
 		qry, err := run.Create(eng, run.Store(sc), sc)
 		t1, f1 := counterValues(reg)
